@@ -29,6 +29,17 @@ Theorem C18_table_scalar_keeps_names : forall ns, t_scalar ns = ns.
 Proof. exact t_scalar_id. Qed.
 Print Assumptions C18_table_scalar_keeps_names.
 
+(* scalar (op) table keeps every column name once the reflected operators are routed through
+   _table_elementwise_operation ... *)
+Theorem C18_scalar_table_keeps_names_when_routed : forall ns, t_rscalar true ns = ns.
+Proof. exact t_rscalar_routed. Qed.
+Print Assumptions C18_scalar_table_keeps_names_when_routed.
+
+(* ... but FALSE of the pinned tree: 2 * t runs Vector.__rmul__, whose column results are unnamed. *)
+Theorem C18_scalar_table_keeps_names_refuted : exists ns, t_rscalar false ns <> ns.
+Proof. exists [Some (s "a")]. vm_compute. discriminate. Qed.
+Print Assumptions C18_scalar_table_keeps_names_refuted.
+
 (* table (op) table: column i keeps the left name iff the right name is absent or equal *)
 Theorem C18_table_table_name_rule : forall l r i,
   i < List.length l -> List.length l = List.length r ->
@@ -86,9 +97,10 @@ Print Assumptions C18_uniquify_least_suffix.
 
 (* All compositions: for every expression over the operations, the model's evaluation gives
    the names the rules (Spec/Names.v) dictate. *)
-Theorem C18_eval_name_agrees : forall reserved,
-  (forall e, eval_v reserved e = rule_v reserved e) /\ (forall e, eval_t reserved e = rule_t reserved e).
-Proof. intros reserved. exact (conj (eval_agrees_v reserved) (eval_agrees_t reserved)). Qed.
+Theorem C18_eval_name_agrees : forall reserved routed,
+  (forall e, eval_v reserved routed e = rule_v reserved routed e) /\
+  (forall e, eval_t reserved routed e = rule_t reserved routed e).
+Proof. intros reserved routed. exact (conj (eval_agrees_v reserved routed) (eval_agrees_t reserved routed)). Qed.
 Print Assumptions C18_eval_name_agrees.
 
 (* ---- non-vacuity ---- *)
@@ -100,9 +112,9 @@ Proof. vm_compute. reflexivity. Qed.
 Example C18_example_expr :
   let t := TLit [Some (s "Total Sales"); None; Some (s "x")] in
   let u := TLit [Some (s "Total Sales"); Some (s "y"); Some (s "z")] in
-  eval_t [] (TTable t u) = [Some (s "Total Sales"); None; None] /\
-  eval_t [] (TKeep TKSort (TAppendV (TScalar t) (VKeep KSlice (VCol 2 u)))) =
+  eval_t [] true (TTable t u) = [Some (s "Total Sales"); None; None] /\
+  eval_t [] true (TKeep TKSort (TAppendV (TScalar t) (VKeep KSlice (VCol 2 u)))) =
     [Some (s "Total Sales"); None; Some (s "x"); Some (s "z")] /\
-  eval_t [] (TAgg false [0] [[0; 0]; []; [2]] [] t) =
+  eval_t [] true (TAgg false [0] [[0; 0]; []; [2]] [] t) =
     map (fun x => Some (s x)) ["Total Sales"; "total_sales_sum"; "total_sales_sum2"; "x_min"].
 Proof. vm_compute. repeat split. Qed.
